@@ -77,8 +77,10 @@ func c10(r *h.Result, rng *h.Rng, tier string, replay string) error {
 		n = 100000
 	}
 	r.Rule = "escape: byte strings ≤24 bytes, 1/4 uniform bytes, 1/2 SQL/LIKE/JSON metacharacters, 1/4 letters, after a fixed adversarial corpus; non-trivial = contains a byte the escape table rewrites; distinct by input. " +
-		"taint: every position of c10_positions.go × router configuration (versions / old layout / cluster) × 3 (quick) or 20 (thorough) markers Head++hostile++Tail — first marker always '\\, then 1–6 fragments (70% from a dictionary of quotes, backslashes, NUL, newlines, comment openers, LIKE wildcards, invalid UTF-8, query-language punctuation; else random bytes / letters), narrowed per level to what the transport or grammar carries; each reaching marker is paired with the harmless marker Head++abc++Tail; all cases non-trivial; distinct by position, configuration, level, marker. " +
-		"inventory: one case per Gen.Params entry. leaves: the positions that carry query-language text × 2 (single node / cluster) × the same marker counts, plus the non-language string arguments (label, tag, group_by, label_names)"
+		"taint: every position of c10_positions.go × router configuration (versions / old layout / cluster) × 3 (quick) or 20 (thorough) markers Head++hostile++Tail — first marker always '\\, then 1–6 fragments (70% from a dictionary of quotes, backslashes, NUL, newlines, comment openers, LIKE wildcards, invalid UTF-8, query-language punctuation; else random bytes / letters), narrowed per level to what the transport or grammar carries; the second marker of every position is preceded by a digit-led fragment, the third by another hostile leading fragment (quote, backslash, sign, bracket, blank …), later ones in half of the cases; each reaching marker is paired with the harmless marker Head++abc++Tail; all cases non-trivial; distinct by position, configuration, level, marker. " +
+		"inventory: one case per Gen.Params entry. leaves: the positions that carry query-language text × 2 (single node / cluster) × the same marker counts, plus the non-language string arguments (label, tag, group_by, label_names). " +
+		"grammar: one case per token-capturing grammar field (Gen.GrammarFields). jsonparser: 600 (quick) / 20000 `| json` queries with 1–3 parameters of 1–4 path parts (identifier, [N], quoted name; a third of the names digit-led), distinct by query. " +
+		"text/tags/fpsql/profsql: the generators of C07, C08, C11, C17, 150 (quick) / 3000 cases each"
 	if err := c10Escape(r, rng.Fork(), n); err != nil {
 		return err
 	}
@@ -101,6 +103,38 @@ func c10(r *h.Result, rng *h.Rng, tier string, replay string) error {
 		return err
 	}
 	if err := c10Leaves(r, rng.Fork(), per); err != nil {
+		return err
+	}
+	nj := 600
+	if tier != "quick" {
+		nj = 20000
+	}
+	if err := c10JsonParser(r, rng.Fork(), nj); err != nil {
+		return err
+	}
+	// the tie of the planner models the C10 theorems are about (plan_closed_log/metric/traceql, fpquery_closed,
+	// pquery_closed) to the real planners: the byte-equality streams of C07 / C08 / C11 / C17, run here too on their
+	// generators (request strings include quotes, backslashes, NUL, comment openers)
+	nt := 150
+	if tier != "quick" {
+		nt = 3000
+	}
+	if err := c07Text(r, rng.Fork(), nt); err != nil {
+		return err
+	}
+	if err := c08Text(r, rng.Fork(), nt, mgen{extraFns: true, ms: true}); err != nil {
+		return err
+	}
+	if err := c11Text(rng.Fork(), r, nt, 3, false); err != nil {
+		return err
+	}
+	if err := c11Tags(rng.Fork(), r, nt); err != nil {
+		return err
+	}
+	if err := c17FpSQL(r, rng.Fork(), nt); err != nil {
+		return err
+	}
+	if err := c17Prof(r, rng.Fork(), nt); err != nil {
 		return err
 	}
 	return nil
